@@ -244,6 +244,14 @@ func (m *SigningProposalFSM) actionConfirmationError(inEvent fsm.Event, args ...
 		return
 	}
 
+	// A failure report made for another batch (e.g. a slow participant's
+	// answer to an already finished batch) must not be counted for this one.
+	if request.BatchID != "" && request.BatchID != m.payload.SigningProposalPayload.BatchID {
+		err = fmt.Errorf("error report is made for batch {\"%s\"}, current batch is {\"%s\"}",
+			request.BatchID, m.payload.SigningProposalPayload.BatchID)
+		return
+	}
+
 	signingProposalParticipant := m.payload.SigningQuorumGet(request.ParticipantId)
 
 	// TODO: Move to methods
